@@ -180,3 +180,54 @@ def reference_cfg(gr, term_id):
         s = rb.sym(gr["rules"][nm])
         out.append((nm, [s]))
     return CFG(out + rb.rules, "start")
+
+
+# ------------------------------------------------------------------ parametric grammars with a reference in the same structured form
+def gen_parametric(rng):
+    """returns dict(text=<lark>, pref=(rules, conds, params, parametric_set, start)) ; terminals are single characters"""
+    conds = ["ge(_, %d)", "le(_, %d)", "eq(_, %d)", "ne(_, %d)", "bit_set(%d)", "bit_clear(%d)", "bit_count_ge(_, %d)", "gt([0:4], %d)", "lt([1:3], %d)"]
+    k = rng.randint(0, 3)
+    c = rng.choice(conds) % k
+    form = rng.randint(0, 4)
+    R = []   # (lhs, [(kind, sym, param)], cond)
+    if form == 0:
+        text = 'start: item::0\nitem::_: "a" item::incr(_) | tail::_\ntail::_: "b" %%if %s\n' % c
+        R = [("start", [("N", "item", "0")], None), ("item", [("T", "a", None), ("N", "item", "incr(_)")], None), ("item", [("N", "tail", "_")], None), ("tail", [("T", "b", None)], c)]
+        par = {"item", "tail"}
+    elif form == 1:
+        nb = rng.randint(2, 3)
+        alts = ['""                       %%if is_ones([0:%d])' % nb] + ['"%s" perm::set_bit(%d)     %%if bit_clear(%d)' % ("abc"[j], j, j) for j in range(nb)]
+        text = "start    :  perm::0x0\nperm::_  :  " + "\n         |  ".join(alts) + "\n"
+        R = [("start", [("N", "perm", "0")], None), ("perm", [], "is_ones([0:%d])" % nb)] + [("perm", [("T", "abc"[j], None), ("N", "perm", "set_bit(%d)" % j)], "bit_clear(%d)" % j) for j in range(nb)]
+        par = {"perm"}
+    elif form == 2:
+        s0 = rng.randint(0, 3)
+        text = 'start: a::%d\na::_: "a" b::_ | "d"\nb::_: c::decr(_) %%if %s\nc::_: "c" a::_ | "e"\n' % (s0, c)
+        R = [("start", [("N", "a", str(s0))], None), ("a", [("T", "a", None), ("N", "b", "_")], None), ("a", [("T", "d", None)], None),
+             ("b", [("N", "c", "decr(_)")], c), ("c", [("T", "c", None), ("N", "a", "_")], None), ("c", [("T", "e", None)], None)]
+        par = {"a", "b", "c"}
+    elif form == 3:
+        text = 'start: cnt::0 "d"\ncnt::_: "a" cnt::incr([0:2]) | done::_\ndone::_: "" %%if %s\n' % c
+        R = [("start", [("N", "cnt", "0"), ("T", "d", None)], None), ("cnt", [("T", "a", None), ("N", "cnt", "incr([0:2])")], None), ("cnt", [("N", "done", "_")], None), ("done", [], c)]
+        par = {"cnt", "done"}
+    else:
+        m = rng.choice([3, 5, 6])
+        text = 'start: x::%d\nx::_: "a" x::bit_and(%d) %%if %s\n    | "b" x::bit_or(1) %%if bit_clear(0)\n    | "c"\n' % (rng.randint(0, 7), m, c)
+        s0 = int(text.split("x::")[1].split("\n")[0])
+        R = [("start", [("N", "x", str(s0))], None), ("x", [("T", "a", None), ("N", "x", "bit_and(%d)" % m)], c), ("x", [("T", "b", None), ("N", "x", "bit_or(1)")], "bit_clear(0)"), ("x", [("T", "c", None)], None)]
+        par = {"x"}
+    return dict(text=text, pref=(R, par))
+
+
+def parametric_reference(pref, term_id):
+    from .gram import CFG, expand_parametric
+    R, par = pref
+    rules, conds, params = [], {}, {}
+    for i, (l, rhs, cond) in enumerate(R):
+        rules.append((l, [("T", term_id[s]) if k == "T" else ("N", s) for k, s, p in rhs]))
+        params[i] = [p for k, s, p in rhs]
+        if cond:
+            conds[i] = cond
+    g = CFG(rules, "start")
+    g.conds, g.params, g.parametric = conds, params, set(par)
+    return expand_parametric(g)
